@@ -29,7 +29,7 @@ CUR = {'ctx': None, 'case': None}
 
 
 def shards(tier, seed):
-    per = 110 if tier == 'quick' else 3200
+    per = 110 if tier == 'quick' else 15000
     budget = 40 if tier == 'quick' else 500
     return [{'kind': 'random', 'count': per, 'budget_s': budget, 'max_g': 14 if tier == 'quick' else 40} for _ in range(16)]
 
